@@ -35,6 +35,11 @@ from io import BytesIO
 
 __all__ = ['Envelope']
 
+# Header lines taken from the original message are written back as they were
+# received: re-folding "long" source lines re-encodes 8-bit values as
+# ``unknown-8bit`` encoded words and can raise UnicodeEncodeError.
+_GENERATOR_POLICY = SMTP.clone(refold_source='none')
+
 _HEADER_BOUNDARY = re.compile(br'\r?\n\s*?\n')
 _LINE_BREAK = re.compile(br'\r?\n')
 
@@ -91,7 +96,7 @@ class Envelope(object):
 
     def _msg_generator(self, msg):
         outfp = BytesIO()
-        BytesGenerator(outfp, policy=SMTP).flatten(msg, False)
+        BytesGenerator(outfp, policy=_GENERATOR_POLICY).flatten(msg, False)
         return outfp.getvalue()
 
     def _merge_payloads(self, headers, payload):
